@@ -914,7 +914,8 @@ def _check_variant(ctx, case, t, info, name, st, base, k, opt):
     want, ambiguous = k - 1, False
     for i in range(1, k if stoptol > 0 else 1):
         delta = abs(fits[i] - fits[i - 1])
-        if abs(delta - stoptol) <= 1e-7 * max(1.0, abs(fits[i])):
+        # the loop's fits are the same floating-point computation in both runs: only a tie at rounding level is ambiguous
+        if abs(delta - stoptol) <= 1e-12 * max(1.0, abs(fits[i])):
             ambiguous = True
             break
         if delta < stoptol:
